@@ -83,3 +83,13 @@ Definition gen_cast_bytes (T : cty) (s : src) : cres (list Z) :=
   | COk value => exec_tail T cast_tail value None
   | CErr e => CErr e
   end.
+
+(* ---- do_cast, pointer branch with a Python int source (src/c/_cffi_backend.c, do_cast):
+        value = _my_PyLong_AsUnsignedLongLong(ob, cast_ptr_strict);  [error -> NULL]
+        return new_simple_cdata((char * )(Py_intptr_t)value, ct);
+        The strict flag is the regenerated C04.Gen.cast_ptr_strict; pointers have psize bytes. *)
+Definition gen_cast_int_to_ptr (psize : nat) (v : Z) : cres Z :=
+  match as_ull cast_ptr_strict (SInt v) with
+  | COk value => COk (value mod 2 ^ (8 * Z.of_nat psize))
+  | CErr e => CErr e
+  end.
